@@ -2,7 +2,7 @@ import PhyModel.Proofs.StoreCache_addDp
 /-! C06, `Tree.remove_data_point_from_node` / `remove_data_point_from_outliers`: the clone's `p` is
 divided by the data point's grid (non-zero values: `DataNZ`, index inside the data set), then every
 `r` from the clone up to the top is recomputed. -/
-namespace PhyModel.Store
+namespace PhyModel.Store.C06
 open PhyModel
 
 /-- **C06, `remove_data_point_from_node`** -/
@@ -40,4 +40,4 @@ theorem cacheOK_rmOut (dt : Data) (s s' : Store) (dp : Nat) (hc : CacheOK dt s)
   · cases h
   · cases h; exact hc
 
-end PhyModel.Store
+end PhyModel.Store.C06
